@@ -1,5 +1,8 @@
 import TantivyModel.Proofs.DocSet.Basic
 import TantivyModel.Proofs.DocSet.Default
+import TantivyModel.Proofs.DocSet.ReqOpt
+import TantivyModel.Proofs.DocSet.Exclude
+import TantivyModel.Proofs.DocSet.SimpleUnion
 import TantivyModel.Model.DocSet.Tree
 /-!
 # C13 — every DocSet is one sorted sequence under any mix of advance and seek
@@ -94,6 +97,64 @@ theorem C13_vec_end_sticky (score : Nat) (prog : List Op)
     implRun Vec.ds (Vec.init [] score) prog = specRun ⟨[], none⟩ prog :=
   (C13_end_sticky Vec.ds Vec.V _ C13_vec_lawful prog _ ⟨rfl, Sorted.nil⟩ hlegal).1
 
+/-! ### combinators over abstract children (`Lawful` children ⇒ `Lawful` combinator) -/
+
+section combinators
+variable {σ τ : Type} {A : DS σ} {B : DS τ}
+  {VA : σ → List Nat → Prop} {WA : σ → Nat → List Nat → Prop}
+  {VB : τ → List Nat → Prop} {WB : τ → Nat → List Nat → Prop}
+
+/-- RequiredOptionalScorer: the sequence of the required child, whatever the optional child is -/
+theorem C13_reqopt_lawful (hA : Lawful A VA WA) :
+    Lawful (ReqOpt.ds A B) (ReqOpt.V VA) (ReqOpt.W (τ := τ) WA) := ReqOpt.lawful hA
+
+theorem C13_reqopt_program_equiv (hA : Lawful A VA WA) (s : ReqOpt.State σ τ) (l : List Nat)
+    (hV : VA s.req l) (prog : List Op) (hlegal : legalProg ⟨l, none⟩ prog = true) :
+    implRun (ReqOpt.ds A B) s prog = specRun ⟨l, none⟩ prog :=
+  C13_program_equiv _ _ _ (ReqOpt.lawful hA) prog s l hV hlegal
+
+theorem C13_reqopt_end_sticky (hA : Lawful A VA WA) (s : ReqOpt.State σ τ) (hV : VA s.req [])
+    (prog : List Op) (hlegal : legalProg ⟨[], none⟩ prog = true) :
+    implRun (ReqOpt.ds A B) s prog = specRun ⟨[], none⟩ prog :=
+  (C13_end_sticky _ _ _ (ReqOpt.lawful hA) prog s hV hlegal).1
+
+/-- Exclude (single exclusion set or a vector of them): underlying minus all exclusion sets -/
+theorem C13_exclude_lawful (hA : Lawful A VA WA) (hB : Lawful B VB WB) :
+    Lawful (Exclude.ds A B) (Exclude.V VA VB WB) (defaultW (Exclude.V VA VB WB)) :=
+  Exclude.lawful hA hB
+
+/-- from construction: `Exclude::new(u, es)` over valid children enumerates exactly the documents
+of `u` that are in none of the exclusion sets, under every legal call program -/
+theorem C13_exclude_program_equiv (hA : Lawful A VA WA) (hB : Lawful B VB WB) (u : σ)
+    (es : List τ) (lu : List Nat) (les : List (List Nat)) (hu : VA u lu) (hes : All2 VB es les)
+    (prog : List Op) (hlegal : legalProg ⟨lu.filter (Exclude.ok les), none⟩ prog = true) :
+    implRun (Exclude.ds A B) (Exclude.new A B u es) prog
+      = specRun ⟨lu.filter (Exclude.ok les), none⟩ prog :=
+  C13_program_equiv _ _ _ (Exclude.lawful hA hB) prog _ _ (Exclude.new_V hA hB hu hes) hlegal
+
+theorem C13_exclude_end_sticky (hA : Lawful A VA WA) (hB : Lawful B VB WB) (s : Exclude.State σ τ)
+    (hV : Exclude.V VA VB WB s []) (prog : List Op) (hlegal : legalProg ⟨[], none⟩ prog = true) :
+    implRun (Exclude.ds A B) s prog = specRun ⟨[], none⟩ prog :=
+  (C13_end_sticky _ _ _ (Exclude.lawful hA hB) prog s hV hlegal).1
+
+/-- SimpleUnion: the sorted union of the children -/
+theorem C13_simple_union_lawful (hA : Lawful A VA WA) :
+    Lawful (SimpleUnion.ds A) (SimpleUnion.V VA) (defaultW (SimpleUnion.V VA)) :=
+  SimpleUnion.lawful hA
+
+theorem C13_simple_union_program_equiv (hA : Lawful A VA WA) (cs : List σ) (ls : List (List Nat))
+    (l : List Nat) (hcs : All2 VA cs ls) (hl : SimpleUnion.IsUnion l ls)
+    (prog : List Op) (hlegal : legalProg ⟨l, none⟩ prog = true) :
+    implRun (SimpleUnion.ds A) (SimpleUnion.build A cs) prog = specRun ⟨l, none⟩ prog :=
+  C13_program_equiv _ _ _ (SimpleUnion.lawful hA) prog _ _ (SimpleUnion.build_V hA hcs hl) hlegal
+
+theorem C13_simple_union_end_sticky (hA : Lawful A VA WA) (s : SimpleUnion.State σ)
+    (hV : SimpleUnion.V VA s []) (prog : List Op) (hlegal : legalProg ⟨[], none⟩ prog = true) :
+    implRun (SimpleUnion.ds A) s prog = specRun ⟨[], none⟩ prog :=
+  (C13_end_sticky _ _ _ (SimpleUnion.lawful hA) prog s hV hlegal).1
+
+end combinators
+
 /-! ## deviations of the real code, mirrored by the model (each reproduced by the harness
 against the real code and recorded in KNOWN_FINDINGS.txt)
 
@@ -155,6 +216,8 @@ example : legalProg ⟨[1, 5, 9], none⟩
   decide
 example : specRun ⟨[1, 5, 9], none⟩ [.advance, .seek 6, .seekDanger 9, .fillBuffer, .doc]
     = [.doc 5, .doc 9, .sd true, .buf [9], .doc TERMINATED] := by decide
+example : All2 Vec.V [Vec.init [] 1] [[]] := All2.cons ⟨rfl, Sorted.nil⟩ All2.nil
+example : Exclude.ok [[5, 7], [9]] 1 = true ∧ Exclude.ok [[5, 7], [9]] 9 = false := by decide
 example : Vec.V (Vec.init [1, 5, 9] 2) [1, 5, 9] := ⟨rfl, by
   refine ⟨by decide, ?_⟩
   intro x hx
